@@ -673,6 +673,9 @@ class SMCSamples(BaseSamples):
             n_samples = len(self.x)
         log_w = self.log_weights(beta)
         w = to_numpy(self.xp.exp(log_w - logsumexp(log_w)))
+        # Rounding in log_w - logsumexp(log_w) grows with |log_w|; renormalise
+        # so that rng.choice accepts the probabilities
+        w = w / w.sum()
         idx = rng.choice(len(self.x), size=n_samples, replace=True, p=w)
         return self.__class__(
             x=self.x[idx],
